@@ -267,18 +267,15 @@ Fixpoint parse_digits (acc : Z) (l : list Z) : option Z :=
 (** strconv.ParseInt(s, 10, 64): optional sign, at least one digit, range check. *)
 Definition parse_int (l : list Z) : option Z :=
   let '(neg, ds) := match l with
-                    | 45 :: t => (true, t)
-                    | 43 :: t => (false, t)
-                    | _ => (false, l)
+                    | c :: t => if c =? 45 then (true, t) else if c =? 43 then (false, t) else (false, l)
+                    | [] => (false, l)
                     end in
-  match ds with
-  | [] => None
-  | _ => match parse_digits 0 ds with
-         | None => None
-         | Some v => let v' := if neg then - v else v in
-                     if (- 2^63 <=? v') && (v' <? 2^63) then Some v' else None
-         end
-  end.
+  if is_nil ds then None
+  else match parse_digits 0 ds with
+       | None => None
+       | Some v => let v' := if neg then - v else v in
+                   if (- 2^63 <=? v') && (v' <? 2^63) then Some v' else None
+       end.
 
 (** Insertion sort by Start (sort.Sort is not stable; Starts are distinct
     for every index NewIndex builds). *)
@@ -313,9 +310,14 @@ Fixpoint split_on (sep : Z) (l : list Z) : list (list Z) :=
 (** A csv record line: terminator (LF or CRLF) removed. *)
 Definition chomp (l : list Z) : list Z :=
   match rev l with
-  | 10 :: 13 :: t => rev t
-  | 10 :: t => rev t
-  | _ => l
+  | c :: t =>
+    if c =? 10 then
+      match t with
+      | d :: t' => if d =? 13 then rev t' else rev t
+      | [] => rev t
+      end
+    else l
+  | [] => l
   end.
 
 Definition E_FIELDS := 1.
@@ -485,9 +487,16 @@ Fixpoint frecs_eqb (a b : list frec) : bool :=
   | _, _ => false
   end.
 
+(** The same map: as many records, and every observed record is the model's
+    record of that name (keys are unique on both sides; the order in which
+    the harness lists records with equal Start is immaterial). *)
+Definition frecs_same (a b : list frec) : bool :=
+  Nat.eqb (length a) (length b)
+  && forallb (fun x => match lookup (r_name x) a with Some y => frec_eqb x y | None => false end) b.
+
 Definition idx_agree (m : outcome (list frec)) (o : obs_idx) : bool :=
   match m with
-  | Ok idx => (fst o =? 0) && frecs_eqb (sort_by_start idx) (snd o)
+  | Ok idx => (fst o =? 0) && frecs_same idx (snd o)
   | Err e => (fst o =? e)
   | _ => false
   end.
